@@ -24,39 +24,95 @@ import (
 	"strconv"
 	"sync"
 	"sync/atomic"
+	"time"
 
 	"github.com/openconfig/gnmi/ctree"
 )
 
+// ccSpin: a start offset of n busy iterations (a few nanoseconds each): the windows looked for are a handful of
+// instructions wide, so the two calls are swept against each other in steps far below a scheduler quantum
+// ccSpin: a start offset of n busy iterations (a few nanoseconds each): the windows looked for are a handful of
+// instructions wide, so the two calls are swept against each other in steps far below a scheduler quantum
 func ccSpin(n int) {
+	var x int32
 	for i := 0; i < n; i++ {
-		runtime.Gosched()
+		atomic.AddInt32(&x, 1)
 	}
+}
+
+// ccDuel runs a() and b() against each other `rounds` times on two goroutines that stay spinning on a round counter
+// between rounds (a goroutine started or woken per round arrives microseconds apart: too coarse), b after a swept
+// busy offset.  setup(i) runs before round i with both workers idle, judge(i) after both returned; the first
+// non-empty verdict ends the duel.
+func ccDuel(rounds int, setup func(i int), a, b func(), judge func(i int) string) string {
+	if p := runtime.GOMAXPROCS(0); p < 4 {
+		defer runtime.GOMAXPROCS(runtime.GOMAXPROCS(4))
+	}
+	var round, spin int64
+	var stop int32
+	var wg sync.WaitGroup
+	worker := func(f func(), delayed bool) {
+		seen := int64(0)
+		for {
+			for atomic.LoadInt64(&round) == seen {
+				if atomic.LoadInt32(&stop) == 1 {
+					return
+				}
+			}
+			seen++
+			if delayed {
+				ccSpin(int(atomic.LoadInt64(&spin)))
+			}
+			f()
+			wg.Done()
+		}
+	}
+	go worker(a, false)
+	go worker(b, true)
+	defer atomic.StoreInt32(&stop, 1)
+	deadline := time.Now().Add(scaled(8 * time.Second))
+	for i := 0; i < rounds && time.Now().Before(deadline); i++ {
+		setup(i)
+		atomic.StoreInt64(&spin, int64(i%400))
+		wg.Add(2)
+		atomic.AddInt64(&round, 1)
+		wg.Wait()
+		if v := judge(i); v != "" {
+			return v
+		}
+	}
+	return "mon=ok"
 }
 
 func ccQueryVsDelete(seed int64, rounds int) string {
 	r := rand.New(rand.NewSource(seed))
-	if p := runtime.GOMAXPROCS(0); p < 4 {
-		defer runtime.GOMAXPROCS(runtime.GOMAXPROCS(4))
-	}
-	for round := 0; round < rounds; round++ {
-		depth := 1 + r.Intn(4)
-		p := []string{"a", "b", "c", "d"}[:depth]
-		t := &ctree.Tree{}
-		if t.Add(p, 7) != nil || t.Add([]string{"k", "l"}, 8) != nil {
-			return "mon=setup-failed"
-		}
-		del := p[:1+r.Intn(depth)] // the leaf itself or one of its ancestors
-		how := r.Intn(3)
-		offQ, offD := r.Intn(4), r.Intn(4)
-		var deleted, late int32
-		start := make(chan struct{})
-		var wg sync.WaitGroup
-		wg.Add(2)
-		go func() {
-			defer wg.Done()
-			<-start
-			ccSpin(offD)
+	var (
+		t             *ctree.Tree
+		p, del        []string
+		how           int
+		deleted, late int32
+	)
+	return ccDuel(rounds,
+		func(int) {
+			depth := 1 + r.Intn(4)
+			p = []string{"a", "b", "c", "d"}[:depth]
+			t = &ctree.Tree{}
+			t.Add(p, 7)
+			t.Add([]string{"k", "l"}, 8)
+			del = p[:1+r.Intn(depth)] // the leaf itself or one of its ancestors
+			how = r.Intn(3)
+			atomic.StoreInt32(&deleted, 0)
+			atomic.StoreInt32(&late, 0)
+		},
+		func() {
+			t.Query(p, func(_ []string, _ *ctree.Leaf, _ interface{}) error {
+				if atomic.LoadInt32(&deleted) == 1 {
+					atomic.StoreInt32(&late, 1)
+				}
+				return nil
+			})
+		},
+		func() {
 			switch how {
 			case 0:
 				t.Delete(del)
@@ -66,74 +122,52 @@ func ccQueryVsDelete(seed int64, rounds int) string {
 				t.WalkDeleted(del, func(interface{}) bool { return true }, func(interface{}) {})
 			}
 			atomic.StoreInt32(&deleted, 1)
-		}()
-		go func() {
-			defer wg.Done()
-			<-start
-			ccSpin(offQ)
-			t.Query(p, func(_ []string, _ *ctree.Leaf, _ interface{}) error {
-				if atomic.LoadInt32(&deleted) == 1 {
-					atomic.StoreInt32(&late, 1)
-				}
-				return nil
-			})
-		}()
-		close(start)
-		wg.Wait()
-		if late == 1 {
-			return "mon=FAIL:query-visited-a-leaf-whose-delete-had-returned depth=" + strconv.Itoa(depth) + " deleted-depth=" + strconv.Itoa(len(del))
-		}
-		if t.GetLeafValue(p) != nil {
-			return "mon=FAIL:leaf-survived-its-delete"
-		}
-		if v := t.GetLeafValue([]string{"k", "l"}); v != 8 {
-			return "mon=FAIL:other-leaf-changed"
-		}
-	}
-	return "mon=ok"
+		},
+		func(int) string {
+			if atomic.LoadInt32(&late) == 1 {
+				return "mon=FAIL:query-visited-a-leaf-whose-delete-had-returned depth=" + strconv.Itoa(len(p)) + " deleted-depth=" + strconv.Itoa(len(del))
+			}
+			if t.GetLeafValue(p) != nil {
+				return "mon=FAIL:leaf-survived-its-delete"
+			}
+			if v := t.GetLeafValue([]string{"k", "l"}); v != 8 {
+				return "mon=FAIL:other-leaf-changed"
+			}
+			return ""
+		})
 }
 
 func ccAddVsCondDelete(seed int64, rounds int) string {
 	r := rand.New(rand.NewSource(seed))
-	if p := runtime.GOMAXPROCS(0); p < 4 {
-		defer runtime.GOMAXPROCS(runtime.GOMAXPROCS(4))
-	}
-	for round := 0; round < rounds; round++ {
-		depth := 1 + r.Intn(4)
-		p := []string{"a", "b", "c", "d"}[:depth]
-		t := &ctree.Tree{}
-		if t.Add(p, 0) != nil || t.Add([]string{"k"}, 8) != nil {
-			return "mon=setup-failed"
-		}
-		q := p[:1+r.Intn(depth)]
-		offA, offD := r.Intn(4), r.Intn(4)
-		start := make(chan struct{})
-		var wg sync.WaitGroup
-		var addErr error
-		wg.Add(2)
-		go func() {
-			defer wg.Done()
-			<-start
-			ccSpin(offA)
-			addErr = t.Add(p, 1)
-		}()
-		go func() {
-			defer wg.Done()
-			<-start
-			ccSpin(offD)
-			t.DeleteConditional(q, func(v interface{}) bool { n, _ := v.(int); return n == 0 })
-		}()
-		close(start)
-		wg.Wait()
-		if addErr != nil {
-			return "mon=FAIL:add-over-existing-leaf-rejected"
-		}
-		if v := t.GetLeafValue(p); v != 1 {
-			return "mon=FAIL:accepted-add-lost depth=" + strconv.Itoa(depth) + " deleted-depth=" + strconv.Itoa(len(q))
-		}
-		if v := t.GetLeafValue([]string{"k"}); v != 8 {
-			return "mon=FAIL:other-leaf-changed"
-		}
-	}
-	return "mon=ok"
+	var (
+		t      *ctree.Tree
+		p, q   []string
+		addErr error
+	)
+	return ccDuel(rounds,
+		func(int) {
+			depth := 1 + r.Intn(4)
+			p = []string{"a", "b", "c", "d"}[:depth]
+			t = &ctree.Tree{}
+			t.Add(p, 0)
+			t.Add([]string{"k"}, 8)
+			if depth > 1 && r.Intn(2) == 0 {
+				t.Add(append(append([]string{}, p[:depth-1]...), "sib"), 0) // keeps the leaf's branch alive
+			}
+			q = p[:1+r.Intn(depth)]
+		},
+		func() { addErr = t.Add(p, 1) },
+		func() { t.DeleteConditional(q, func(v interface{}) bool { n, _ := v.(int); return n == 0 }) },
+		func(int) string {
+			if addErr != nil {
+				return "mon=FAIL:add-over-existing-leaf-rejected"
+			}
+			if v := t.GetLeafValue(p); v != 1 {
+				return "mon=FAIL:accepted-add-lost depth=" + strconv.Itoa(len(p)) + " deleted-depth=" + strconv.Itoa(len(q))
+			}
+			if v := t.GetLeafValue([]string{"k"}); v != 8 {
+				return "mon=FAIL:other-leaf-changed"
+			}
+			return ""
+		})
 }
